@@ -25,7 +25,7 @@ impl Property for C07 {
         "C07"
     }
     fn rule(&self) -> String {
-        "Generated: (language, text, threshold) from the clean and dirty sentence generators (number words of every class placed next to each other so that words get rejected inside or right after a number in progress; scale words and ordinals as frequent as units), plus repeated-scale-word shapes. Differential oracle between the scanner and the validator: (1) any threshold: for each non-decimal occurrence, text2digits(the word tokens of its span joined by spaces) == Ok(occurrence text); (2) for every contiguous run p of <= 6 word tokens with text2digits(p) == Ok(d): scanning p alone (plain tokens, no annotation, threshold 0) yields exactly one occurrence and its text is d; (3) threshold 0: every word token outside all occurrences and not flagged by the language's annotation has text2digits(word) == Err. Clauses (1) and (3) are also asserted on an own-token stream of the same tokens carrying random 'separated' / 'not a number part' hints. Non-trivial = distinct texts with two occurrences directly adjacent (only whitespace between them: a word was rejected by a number in progress), or a validated run of >= 2 words.".into()
+        "Generated: (language, text, threshold) from the clean and dirty sentence generators (number words of every class placed next to each other so that words get rejected inside or right after a number in progress; scale words and ordinals as frequent as units), plus repeated-scale-word shapes. Differential oracle between the scanner and the validator: (1) any threshold: for each non-decimal occurrence, text2digits(the word tokens of its span joined by spaces) == Ok(occurrence text); (2) for every contiguous run p of <= 6 word tokens with text2digits(p) == Ok(d): scanning p alone (plain tokens, no annotation, threshold 0) yields exactly one occurrence and its text is d; (3) threshold 0: every word token outside all occurrences and not flagged by the language's annotation has text2digits(word) == Err. Clauses (1) and (3) are also asserted on an own-token stream of the same tokens carrying random 'separated' / 'not a number part' hints, and on that stream reduced to its word tokens (a speech recogniser's stream: numbers directly adjacent, with or without hints). Non-trivial = distinct texts with two occurrences directly adjacent (only whitespace between them: a word was rejected by a number in progress), or a validated run of >= 2 words.".into()
     }
     fn strategy(&self, _tier: Tier) -> BoxedStrategy<Case> {
         let from_sentence = text_case(30, 10).prop_map(|tc| Case { lang: tc.lang.clone(), text: tc.text(), th_bits: tc.th_bits, hints: vec![] });
@@ -161,9 +161,11 @@ impl Property for C07 {
             obs.label("threshold-0-coverage-checked");
         }
         // own-token stream with 'separated' / 'not a number part' hints: clauses (1) and (3) again
+        // (second pass: the same reduced to its word tokens - a speech recogniser's stream, numbers directly adjacent)
+        for words_only in [false, true] {
         if !c.hints.is_empty() {
-            let mut stream: Vec<Tk> = t.iter().enumerate().map(|(i, x)| Tk::new(i, &x.text)).collect();
-            if apply_hints(&mut stream, &c.hints) {
+            let mut stream: Vec<Tk> = t.iter().map(|x| x.text.as_str()).filter(|x| !words_only || is_word(x)).enumerate().map(|(i, x)| Tk::new(i, x)).collect();
+            if apply_hints(&mut stream, &c.hints) || words_only {
                 let so = occs(find_numbers(stream.iter(), lg, th));
                 let mut cov = vec![false; stream.len()];
                 for oc in &so {
@@ -192,8 +194,9 @@ impl Property for C07 {
                         }
                     }
                 }
-                obs.label("hinted-stream-checked");
+                obs.label(if words_only { "word-only-stream-checked" } else { "hinted-stream-checked" });
             }
+        }
         }
         if nontrivial {
             obs.nontrivial(&(&c.lang, &c.text));
